@@ -53,6 +53,11 @@ type conn struct {
 	nWrites    int
 	faultFired bool
 	faultOwner string
+	// write deadline in force on the transport and who set it: every transport write must run under the deadline its
+	// own caller put there (a control sender's finite deadline must never govern the data writer's frame)
+	wd        time.Time
+	wdOwner   string
+	foreignWD string
 }
 
 type faultSpec struct {
@@ -80,6 +85,9 @@ func (c *conn) Write(p []byte) (int, error) {
 	}
 	if c.closed {
 		return 0, errClosedTransport
+	}
+	if !c.wd.IsZero() && c.wdOwner != c.who() && c.foreignWD == "" && c.sched {
+		c.foreignWD = fmt.Sprintf("transport write #%d of %d bytes by %s runs under the finite write deadline that %s set (%s did not set one): if it expires, %s's frame is cut although its caller asked for no deadline", c.nWrites, len(p), c.who(), c.wdOwner, c.who(), c.who())
 	}
 	c.nWrites++
 	if c.fault != nil && !c.faultFired && c.nWrites-1 == c.fault.At {
@@ -144,7 +152,12 @@ func (c *conn) LocalAddr() net.Addr                { return addr{} }
 func (c *conn) RemoteAddr() net.Addr               { return addr{} }
 func (c *conn) SetDeadline(t time.Time) error      { return nil }
 func (c *conn) SetReadDeadline(t time.Time) error  { return nil }
-func (c *conn) SetWriteDeadline(t time.Time) error { return nil }
+func (c *conn) SetWriteDeadline(t time.Time) error {
+	if c.sched {
+		c.wd, c.wdOwner = t, c.who()
+	}
+	return nil
+}
 
 // ---------------------------------------------------------------- scenario description
 
@@ -384,6 +397,9 @@ func judge(d *execData) (outcome, key, what string) {
 	if !hasCloser && !c.faultFired && k != len(want) {
 		return outcome, "data-missing", fmt.Sprintf("%d of %d data messages reached the wire", k, len(want))
 	}
+	if c.foreignWD != "" {
+		return outcome, "foreign-write-deadline", c.foreignWD
+	}
 	if c.afterClosed > 0 {
 		return outcome, "bytes-after-transport-close", "bytes were accepted after Close()"
 	}
@@ -435,7 +451,7 @@ func mkScenario(c *hl.Ctx, spec scenarioSpec) mc.Scenario {
 	if sp.Prune {
 		s.StateKey = func(x *vsched.Exec) string {
 			d := x.Data.(*execData)
-			return fmt.Sprintf("ff=%v w=%v wire=%x res=%v cl=%v cd=%v mu=%d we=%s iw=%s", d.c.faultFired, d.c.writes, dump.String(d.c.wire, dump.Options{MaxBytes: 8}), d.results, d.c.closed, d.c.closeDone,
+			return fmt.Sprintf("wd=%v/%s fw=%v ff=%v w=%v wire=%x res=%v cl=%v cd=%v mu=%d we=%s iw=%s", !d.c.wd.IsZero(), d.c.wdOwner, d.c.foreignWD != "", d.c.faultFired, d.c.writes, dump.String(d.c.wire, dump.Options{MaxBytes: 8}), d.results, d.c.closed, d.c.closeDone,
 				muLen(d.ws), dump.Field(d.ws, "writeErr", dump.Options{}), dump.Field(d.ws, "isWriting", dump.Options{}))
 		}
 	}
@@ -490,7 +506,7 @@ func baseSpecs() []scenarioSpec {
 }
 
 func run(c *hl.Ctx) {
-	c.Rule("E1: every interleaving within the reported preemption bound (-1 = unbounded, with state-key pruning) of a data writer, control-frame senders, a closer and a ping-answering reader on one real Conn, and the same with a one-shot transport write failure (expired deadline or plain error, nothing or half accepted) at every position 0..4 of the transport write history; scheduling points: every transport Write/Read/Close, every receive/send/select on the lock channel c.mu (R3), Lock/Unlock of writeErrMu (R1). state = distinct observable outcome (frame sequence with owning goroutine); transition = scheduling step.")
+	c.Rule("E1: every interleaving within the reported preemption bound (-1 = unbounded, with state-key pruning) of a data writer, control-frame senders, a closer and a ping-answering reader on one real Conn, and the same with a one-shot transport write failure (expired deadline or plain error, nothing or half accepted) at every position 0..4 of the transport write history; every transport write must run under the write deadline its own caller set; scheduling points: every transport Write/Read/Close, every receive/send/select on the lock channel c.mu (R3), Lock/Unlock of writeErrMu (R1). state = distinct observable outcome (frame sequence with owning goroutine); transition = scheduling step.")
 	c.Assume("write deadlines are zero or far in the future: the lock-acquisition timeout path of WriteControl is not explored", "one data writer (the library's documented usage)", "unsynchronised accesses between scheduling points are judged by the separate free-running race-detector pass")
 	if c.Mode() == "race" {
 		racePass(c)
